@@ -65,6 +65,20 @@ def jobs_for(tier, rnd):
                         desc = head + body + '\n' + PRELUDE + ('ignore " "\n' if ign else '')
                         jobs.append((len(jobs), desc, TEXTS, {'fuel': 4 * d + 60, 'inner': iname, 'wrappers': '+'.join(kinds), 'depth': d}))
                 gid += 1
+    # two textually identical deep subexpressions in which a name means different things (a rule / a parameter)
+    for kinds in combos[:3] + MIXES:
+        for d in depths:
+            if tier == 'quick' and d not in (1, 10, 15, 16, 17, 18, 20, 25, 40):
+                continue
+            for named in (False, True):
+                for order in (0, 1):
+                    inner = '("<" >> word << ">")'
+                    rules = [f'Plain = {wrap(inner, kinds, d)}', f'Quoted(word) = {wrap(inner, kinds, d)}']
+                    head = f'grammar c17s{gid}o{order}\n' if named else ''
+                    desc = head + 'start = [Plain, Quoted(num)]\n' + '\n'.join(rules[::-1] if order else rules) + '\nword = /[a-z]+/\nnum = /[0-9]+/ |> `int`\n'
+                    jobs.append((len(jobs), desc, ['<abc><123>', '<abc><abc>', '<1><2>', '', '<abc>', '<ab><1>x'],
+                                 {'fuel': 4 * d + 60, 'inner': 'same-text-different-names', 'wrappers': '+'.join(kinds), 'depth': d}))
+            gid += 1
     # binary grammars
     for (iname, inner, prefix) in BINNERS:
         for kinds in combos:
